@@ -40,6 +40,10 @@ pub struct ChannelTrace {
     /// the parser)
     #[serde(default)]
     pub linkdir: Option<(crate::keys::KeySpec, String)>,
+    /// one byte of the as-written text replaced (position, value): typically ill-formed UTF-8 inside a
+    /// string; only the byte-oriented channels can be offered such a document, and they must agree on it
+    #[serde(default)]
+    pub raw_byte: Option<(usize, u8)>,
 }
 
 // ---------------------------------------------------------------------------------------------
@@ -254,6 +258,23 @@ fn decode_all<T: DeserializeOwned + PartialEq + Send + 'static>(t: &ChannelTrace
                     push("file: read_to_string + from_str", sp, r2, false, &mut results, &mut values);
                 }
             }
+            if let Some((pos, val)) = t2.raw_byte {
+                let mut raw = t2.text.clone().into_bytes();
+                if !raw.is_empty() {
+                    let p = pos % raw.len();
+                    raw[p] = val;
+                    let sp = "raw-bytes";
+                    push("serde_json::from_slice", sp, serde_json::from_slice::<T>(&raw).map_err(|e| e.to_string()), false, &mut results, &mut values);
+                    push("Json::from_slice", sp, Json::from_slice::<T>(&raw).map_err(|e| e.to_string()), false, &mut results, &mut values);
+                    push("JsonPretty::from_slice", sp, JsonPretty::from_slice::<T>(&raw).map_err(|e| e.to_string()), false, &mut results, &mut values);
+                    let mut rd = SimReader::new(&raw, t2.io_seed ^ 11, t2.chunked, t2.eintr_pct, None);
+                    push("serde_json::from_reader", sp, serde_json::from_reader::<_, T>(&mut rd).map_err(|e| e.to_string()), false, &mut results, &mut values);
+                    let mut rd = SimReader::new(&raw, t2.io_seed ^ 12, t2.chunked, t2.eintr_pct, None);
+                    push("Json::from_reader", sp, Json::from_reader::<_, T>(&mut rd).map_err(|e| e.to_string()), false, &mut results, &mut values);
+                    let mut rd = SimReader::new(&raw, t2.io_seed ^ 13, t2.chunked, t2.eintr_pct, None);
+                    push("JsonPretty::from_reader", sp, JsonPretty::from_reader::<_, T>(&mut rd).map_err(|e| e.to_string()), false, &mut results, &mut values);
+                }
+            }
             // pairwise equality of Ok values against the first Ok
             let mut unequal = None;
             let first = values.iter().position(|v| v.is_some());
@@ -391,8 +412,8 @@ pub fn judge_channel(t: &ChannelTrace, o: &ChannelOutcome) -> Vec<Finding> {
     // a group of its own (all channels must still agree on it), not against the unpadded spellings
     let json_ws = |s: &str| s.chars().all(|c| c == ' ' || c == '\n' || c == '\t' || c == '\r');
     let other_doc = t.pad.as_ref().map(|(a, b)| !json_ws(a) || !json_ws(b)).unwrap_or(false);
-    let group_of = |r: &ChanResult| if r.spelling == "padded" && other_doc { 1 } else { 0 };
-    for g in 0..2 {
+    let group_of = |r: &ChanResult| if r.spelling == "raw-bytes" { 2 } else if r.spelling == "padded" && other_doc { 1 } else { 0 };
+    for g in 0..3 {
         let strict: Vec<&ChanResult> = o.results.iter().filter(|r| !r.may_fail && group_of(r) == g).collect();
         if strict.is_empty() {
             continue;
@@ -684,13 +705,14 @@ pub fn run_c17(tier: Tier, seed: u64, index: u64, scratch: &Scratch, rec: &mut R
             fail_at: if r.chance(1, 3) { Some(r.next() as usize % 100_000) } else { None },
             file_faults: if tier == Tier::Thorough && r.chance(1, 2) { Some((300, 100)) } else { None },
             labels: labels.clone(),
+            raw_byte: if r.chance(1, 5) { Some((r.next() as usize % 100_000, *r.pick(&[0xffu8, 0x80, 0xc3, 0xe2, 0xf0, 0xc0, 0xed, 0x00, 0x7d, 0x22])) ) } else { None },
             linkdir: linkdir.clone(),
             pad: if linkdir.is_some() && r.chance(1, 3) {
                 // enough leading blanks to push the document's text across an 8 KiB or 16 KiB boundary
                 let n = *r.pick(&[8192usize, 16384]) - r.idx(text.len().max(1).min(600)) - 1;
                 Some((" ".repeat(n), "\n".to_string()))
             } else if r.chance(1, 4) {
-                let ws = [" ", "\n", "\t", "\r\n", "\u{c}", "\u{b}", "\u{a0}", "\u{85}", "\u{2028}", "\u{3000}", "\u{feff}", "\u{0}"];
+                let ws = [" ", "\n", "\t", "\r\n", "\u{c}", "\u{b}", "\u{a0}", "\u{85}", "\u{2028}", "\u{3000}", "\u{feff}", "\u{0}", "}", ",", "{}", "null", " x"];
                 Some((r.pick(&ws).to_string(), r.pick(&ws).to_string()))
             } else {
                 None
@@ -728,6 +750,7 @@ pub fn minimise(prop: &str, clause: &str, t: &ChannelTrace, scratch: &Scratch) -
                 x.ws = 0;
             }
             if d {
+                x.raw_byte = None;
                 x.pad = None;
                 x.chunked = false;
                 x.eintr_pct = 0;
